@@ -36,9 +36,12 @@ type sessOp struct {
 	// C10: concurrent CONNECTs on one identifier (op "race"), optionally with the attached connection being
 	// dropped by its client at the same moment; and a CONNECT aimed at a timer deadline (At seconds after the
 	// identifier's last connection end)
-	Racers  []sessOp `json:"racers,omitempty"`
-	DropCur bool     `json:"dropcur,omitempty"`
-	At      int      `json:"at,omitempty"`
+	Racers []sessOp `json:"racers,omitempty"`
+	// a racer with Abort: its client is gone when the broker writes its CONNACK. The broker is kept inside that write
+	// (a pipe that takes one byte) while the other racers arrive and queue for the identifier, then the write fails
+	Abort   bool `json:"abort,omitempty"`
+	DropCur bool `json:"dropcur,omitempty"`
+	At      int  `json:"at,omitempty"`
 }
 
 type sessCase struct {
@@ -76,8 +79,8 @@ func (p *sessProp) ID() string { return p.id }
 func (p *sessProp) Header() string {
 	return "From Coq Require Import List NArith ZArith.\nImport ListNotations.\nFrom VMQ Require Import model.Sessions chk.C05chk.\nOpen Scope Z_scope.\n"
 }
-func (p *sessProp) Parallel() int { return 24 }
-func (p *sessProp) Linger() time.Duration { return 2600 * time.Millisecond }
+func (p *sessProp) Parallel() int                              { return 24 }
+func (p *sessProp) Linger() time.Duration                      { return 2600 * time.Millisecond }
 func (p *sessProp) Gen(r *Rng, i int, tier string) interface{} { return p.gen(r, i, tier) }
 func (p *sessProp) Decode(raw json.RawMessage) (interface{}, error) {
 	c := &sessCase{}
@@ -113,23 +116,27 @@ type sessRun struct {
 }
 
 func (r *sessRun) startBroker() error {
-	b, err := NewBroker(BrokerOpts{Preempt: r.c.Preempt, Persist: r.persist, SubsID: true})
-	if err != nil {
-		return err
-	}
-	r.b = b
-	r.persist = b.Persist
-	// the watcher is a recording stub subscribed at the topics provider (not a session: Manager.Stop does not close it)
+	// the watcher is a recording stub subscribed at the topics provider (not a session: Manager.Stop does not close
+	// it), and it is there BEFORE the session manager starts: wills that became due while the broker was down are
+	// published from inside NewManager
 	r.wmu.Lock()
 	r.wrecv = nil
 	r.wmu.Unlock()
 	r.seenW = 0
 	st := &sessStub{r: r}
-	for _, f := range []string{"will/#", "marker"} {
-		if resp := b.Topics.Subscribe(topicsTypes.SubscribeReq{Filter: f, S: st, Params: vlsubscriber.SubscriptionParams{Ops: mqttp.SubscriptionOptions(0 | 0x20)}}); resp.Err != nil {
-			return fmt.Errorf("watcher stub: %v", resp.Err)
+	b, err := NewBroker(BrokerOpts{Preempt: r.c.Preempt, Persist: r.persist, SubsID: true, OnTopics: func(tp topicsTypes.Provider) error {
+		for _, f := range []string{"will/#", "marker"} {
+			if resp := tp.Subscribe(topicsTypes.SubscribeReq{Filter: f, S: st, Params: vlsubscriber.SubscriptionParams{Ops: mqttp.SubscriptionOptions(0 | 0x20)}}); resp.Err != nil {
+				return fmt.Errorf("watcher stub: %v", resp.Err)
+			}
 		}
+		return nil
+	}})
+	if err != nil {
+		return err
 	}
+	r.b = b
+	r.persist = b.Persist
 	pc := b.Dial()
 	if _, err := pc.Connect(ConnectOpts{ID: "P", Ver: mqttp.ProtocolV311, Clean: true}); err != nil {
 		return fmt.Errorf("publisher: %v", err)
@@ -432,6 +439,31 @@ func (p *sessProp) Run(ci interface{}) interface{} {
 				return fail("step %d: ping barrier", k)
 			}
 			r.emit(fmt.Sprintf("(ESubscribe %d%%N %d%%N)", op.ID, op.T*2+nl), r.collect())
+		case "unsub":
+			// MQTT 3.x connections only: the packet library can neither encode a v5 UNSUBSCRIBE nor decode the
+			// broker's v5 UNSUBACK (see the known finding C06-unsuback-no-codes)
+			a := r.cur[op.ID]
+			if a == nil || a.Closed() || a.Ver == mqttp.ProtocolV50 {
+				continue
+			}
+			n := a.CountOthers(mqttp.UNSUBACK)
+			u := mqttp.NewUnSubscribe(a.Ver)
+			u.SetPacketID(mqttp.IDType(k + 1))
+			tp, _ := mqttp.NewTopic([]byte(sessTopic(op.T)))
+			_ = u.AddTopic(tp)
+			_ = a.SendL(u)
+			if !a.WaitFor(5*time.Second, func() bool {
+				j := 0
+				for _, o := range a.Others {
+					if o.Type() == mqttp.UNSUBACK {
+						j++
+					}
+				}
+				return j > n
+			}) {
+				return fail("step %d: no unsuback", k)
+			}
+			r.emit(fmt.Sprintf("(EUnsubscribe %d%%N %d%%N)", op.ID, op.T), r.collect())
 		case "pub", "retain", "unretain":
 			pb := r.pub
 			if op.V5 {
@@ -800,19 +832,31 @@ func (r *sessRun) connectAtDeadline(k int, op sessOp, d time.Time) string {
 // closed by its client at that moment too)
 func (r *sessRun) race(k int, op sessOp) string {
 	type racer struct {
-		cid int
-		o   ConnectOpts
-		ev  string
-		cl  *Client
-		a   *Auto
-		ack *mqttp.ConnAck
-		err error
+		cid   int
+		o     ConnectOpts
+		ev    string
+		cl    *Client
+		a     *Auto
+		ack   *mqttp.ConnAck
+		err   error
+		abort bool
 	}
 	var rs []*racer
+	aborting := false
 	for _, ro := range op.Racers {
 		ro.ID = op.ID
+		if ro.Abort {
+			ro.Clean, ro.WillDelay = true, -2
+		}
 		cid, o, ev := r.connectOpts(k, ro)
-		rs = append(rs, &racer{cid: cid, o: o, ev: ev, cl: r.b.Dial()})
+		x := &racer{cid: cid, o: o, ev: ev, abort: ro.Abort}
+		if ro.Abort {
+			x.cl = r.b.DialCap(1)
+			aborting = true
+		} else {
+			x.cl = r.b.Dial()
+		}
+		rs = append(rs, x)
 	}
 	old := r.cur[op.ID]
 	oldCid := r.curCid[op.ID]
@@ -826,6 +870,21 @@ func (r *sessRun) race(k int, op sessOp) string {
 		go func(x *racer) {
 			defer wg.Done()
 			<-start
+			if x.abort {
+				// the broker gets stuck in the CONNACK write; the others queue behind it; then the write fails
+				go func() { time.Sleep(120 * time.Millisecond); x.cl.conn.(*bufConn).Deafen() }()
+				x.o.NoRead = true
+				_, _ = x.cl.Connect(x.o)
+				select {
+				case <-x.cl.done:
+				case <-time.After(5 * time.Second):
+				}
+				x.cl.Close()
+				return
+			}
+			if aborting {
+				time.Sleep(50 * time.Millisecond)
+			}
 			x.ack, x.err = x.cl.Connect(x.o)
 			if x.err == nil {
 				x.a = x.cl.Auto(false)
@@ -851,6 +910,12 @@ func (r *sessRun) race(k int, op sessOp) string {
 	accepted := 0
 	for _, x := range rs {
 		evs = append(evs, x.ev)
+		if x.abort {
+			evs = append(evs, fmt.Sprintf("(EDropC %d%%N %d%%N)", x.cid, op.ID))
+			ign = x.cid
+			r.seenClose[x.cid] = true
+			continue
+		}
 		if x.err != nil {
 			r.obs.Steps = append(r.obs.Steps, sessStep{Ev: evs[0], Obs: append(r.collect(), [4]int{6, x.cid, 0, 0}), Race: evs[1:], Ign: ign})
 			return fmt.Sprintf("step %d: one of %d racing CONNECTs was not answered: %v", k, len(rs), x.err)
@@ -872,7 +937,7 @@ func (r *sessRun) race(k int, op sessOp) string {
 	live := func() []*racer {
 		var l []*racer
 		for _, x := range rs {
-			if x.ack.ReturnCode() == 0 && !x.a.Closed() {
+			if !x.abort && x.ack.ReturnCode() == 0 && !x.a.Closed() {
 				l = append(l, x)
 			}
 		}
